@@ -46,7 +46,7 @@ def plan(tier):
     for a in c20:
         for b in rnd.sample(others, 3 if tier == "quick" else 8) + [rnd.choice(c20)]:
             extra20.append((a, b) if rnd.random() < 0.5 else (b, a))
-    npairs = 110 if tier == "quick" else 1000
+    npairs = 160 if tier == "quick" else 1000
     pid = 1000
     for a, b in allp:
         if len(pairs) >= npairs:
